@@ -2,7 +2,7 @@
 import ast
 
 from ..pymodel import AnalysisError, FuncInfo, parent
-from ..astutil import (src, is_name, is_const, const_num, call_name, walk_no_nested, strip_docstring,
+from ..astutil import (expand_names, src, is_name, is_const, const_num, call_name, walk_no_nested, strip_docstring,
                        compare_atoms, enclosing_stmt, calls_in, names_in, assignments_to, norm_compare,
                        orient, literal_tuple)
 from ..cfg import cfg_of, ENTRY, EXIT, RAISE
@@ -125,7 +125,7 @@ def rules(ctx):
     loop = enclosing_stmt(pc)
     if not isinstance(loop, ast.For):
         raise AnalysisError("_solve_bruteforce: product is not the iterator of a for loop")
-    dom = pc.args[0] if pc.args else None
+    dom = expand_names(sb.node, pc.args[0]) if pc.args else None
     okd = isinstance(dom, ast.IfExp) and src(dom.test) == spinp and \
         set(literal_tuple(dom.body) or ()) == {1, -1} and len(literal_tuple(dom.body) or ()) == 2 and \
         set(literal_tuple(dom.orelse) or ()) == {0, 1} and len(literal_tuple(dom.orelse) or ()) == 2
@@ -205,23 +205,17 @@ def rules(ctx):
                      "N = %s and map = %s do not come from the model's own enumeration" % (src(nsrc), src(msrc)))
 
     # ---------------------------------------------------------------- R09.3
-    conts = [n for n in ast.walk(loop) if isinstance(n, ast.Continue)]
-    filt = None
-    for c in conts:
-        facts = []
-        for t, pol, o in g.edge_dominators(c):
-            facts += compare_atoms(t, pol)
-        if any(f[0] == 'falsy' and f[1].startswith('%s(' % validp) for f in facts if len(f) == 2):
-            filt = c
     vcalls = [enclosing_stmt(c) for c in calls_in(loop) if is_name(c.func, valuep)]
     updates = [n for n in ast.walk(loop) if isinstance(n, ast.Assign) and any(is_name(t, 'best') for t in n.targets)]
-    okf = filt is not None
-    if okf:
-        owner = [o for t, pol, o in g.edge_dominators(filt)][-1]
-        for n in vcalls + updates:
-            okf = okf and g.dominates([owner], n) and not g.reaches(n, owner, avoid=[loop])
-    ctx.inst('R09.3', sb, filt if filt is not None else 'validity filter', okf,
-             "`not valid(x)` -> continue dominates the value computation and the best-updates" if okf else
+    okf = bool(vcalls) and bool(updates)
+    for n in vcalls + updates:
+        facts = []
+        for t, pol, o in g.edge_dominators(n):
+            facts += compare_atoms(t, pol)
+        if not any(f[0] == 'truthy' and f[1].startswith('%s(' % validp) for f in facts if len(f) == 2):
+            okf = False
+    ctx.inst('R09.3', sb, 'validity filter', okf,
+             "the value computation and every best-update are dominated by valid(x) being true" if okf else
              "the validity filter does not dominate the value computation / best-updates: invalid assignments can "
              "become the reported optimum")
     okv = bool(vcalls) and all(any(is_name(c.func, valuep) and len(c.args) == 2 and is_name(c.args[1], D)
